@@ -24,7 +24,9 @@ CALLS = [
     ('c-e5m2inf', "bitstring.Bits('e5m2mxfp=inf')"), ('c-f16', "bitstring.Bits('float16=0.1')"), ('c-rep', "bitstring.BitArray('2*(u4=1, 0b1)')"),
     ('c-bitstok', "bitstring.Bits('bits=0x3a5, 0b1')"), ('c-3a5', "bitstring.BitArray('0x3a5')"), ('c-bad', "bitstring.Bits('hex:8=f')"),
     ('c-fromstring', "bitstring.BitArray.fromstring('0xf')"), ('c-ws', "bitstring.Bits('0x f')"), ('c-uie-kw', "bitstring.Bits(uie=3)"),
-    ('c-e4m3-kw', "bitstring.Bits(e4m3mxfp=1000.0)"), ('c-append', "(lambda x: (x.append('0xf'), x)[1])(bitstring.BitArray('0b1'))"),
+    ('c-e4m3-kw', "bitstring.Bits(e4m3mxfp=1000.0)"), ('c-uintle-kw', "bitstring.BitArray(uintle=258, length=16)"), ('c-intne-kw', "bitstring.BitStream(intne16=-2)"),
+    ('c-float-kw', "bitstring.BitArray(float=0.5, length=32)"), ('c-floatle-kw', "bitstring.BitArray(floatle=-0.0, length=16)"), ('c-float0-kw', "bitstring.BitStream(float=0.0, length=16)"),
+    ('c-hex-kw', "bitstring.BitArray(hex='ff')"), ('c-int-kw', "bitstring.BitArray(int=-3, length=7)"), ('c-bfloat-kw', "bitstring.BitArray(bfloat=1.5)"), ('c-ue-kw', "bitstring.BitArray(ue=0)"), ('c-append', "(lambda x: (x.append('0xf'), x)[1])(bitstring.BitArray('0b1'))"),
     ('p-u8', "bitstring.pack('u8', 5)"), ('p-list', "bitstring.pack(['u8', 'u4', 'bool'], 5, 3, True)"), ('p-n8', "bitstring.pack('u:n', 3, n=8)"),
     ('p-n9', "bitstring.pack('u:n', 3, n=9)"), ('p-e4m3', "bitstring.pack('e4m3mxfp', 1000.0)"), ('p-ue', "bitstring.pack('ue', 3)"),
     ('p-rep', "bitstring.pack('2*u4', 1, 2)"), ('p-struct', "bitstring.pack('<h', 3)"), ('p-bits', "bitstring.pack('bits', '0xf')"),
